@@ -15,7 +15,7 @@ PROP = {
         "Multi.C02.elemit_deref",
         "Multi.C02.elemit_laws",
     ],
-    "harnesses": [views_harness(["rebased"], 4800, 320000)],
+    "harnesses": [views_harness(["rebased"], 4800, 320000, modes_thorough=["rebased", "exhaustive-rebased"])],
     "trusted_base": TRUSTED_COMMON,
     "assumptions": ["index bases drawn from -3..3 per dimension in the correspondence run; the theorems hold for every integer base",
                     "copying, assignment, equality and reextent of re-based arrays reduce to elements() of re-based views (C05/C06/C07 checks run re-based operands as well)",
